@@ -211,8 +211,6 @@ def build_ref(prog: Prog, xp):
     ins = {}
     for name, shape, dtype, kind in prog.inputs:
         a = xp.input(name, shape, dtype)
-        if name in prog.nonneg:
-            a.nonneg = True
         ins[name] = a
     return prog.fn(xp, **ins), ins
 
@@ -336,6 +334,11 @@ CORPUS = [
        lambda L, x, i, j: {"a": x[:, i, :, j], "b": x[:, i, :, -1], "c": x[::-1, 2, 1:2, i], "d": x[:, i, j % 2, :],
                            "e": x[1, :, i % 2, j], "f": x[:, :, i % 2, j], "g": x[i % 2, :, :, j]},
        tags=("advidx",), index_ranges={"i": (-3, 3), "j": (-3, 3)}),
+    _P("adv_index_nonneg", [ph("x", (4, 3, 2)), ph("r", (2,), I64), ph("c", (2,), I64), ph("d", (2,), I64)],
+       # r holds non-negative indices only (declared: C07 may tag it AssumeNonNegative), c and d hold negative ones too
+       lambda L, x, r, c, d: {"a": x[r, c], "b": x[r, :, d], "e": x[:, c, r % 2], "f": x[r, c, d], "g": x[r]},
+       tags=("advidx",), nonneg=("r",), index_ranges={"r": (0, 4), "c": (-3, 3), "d": (-2, 2)},
+       fixed_data={"r": [3, 0], "c": [-1, -3], "d": [-2, -1]}),
     _P("creation", [ph("x", (3, 3))],
        lambda L, x: {"z": L.zeros((3, 3)) + x, "o": L.ones((3,), dtype=I32) * 2, "f": L.full((2, 3), 7.5), "eye": L.eye(3) * x,
                      "eyek": L.eye(3, 4, k=1), "ar": L.arange(3) * 2 + x, "zl": L.zeros_like(x), "ol": L.ones_like(x) + x}),
